@@ -41,7 +41,8 @@ ASSUMPTIONS = [
     "xlrd classifies cells correctly (number formats of vlib.enc_xlsx are verified once per run against xlrd "
     "directly: date and time formats give date cells, the others number cells)",
     "xlsx cannot represent trailing empty rows or columns: the expected table is the bounding box of the valued "
-    "cells; tables for the writer round trip keep a non-empty cell in their last row and in the last column of "
+    "cells; tables for the writer round trip may end in explicitly written empty cells (they must read back), only "
+    "trailing rows without any cell are dropped from the expectation; generated workbooks keep a non-empty cell in the last row / column of "
     "their widest row",
     "formatted blank cells are only placed inside the bounding box (whether they extend a sheet's width is left open)",
     "negative zero may render as '0' or '-0'; for |v| >= 1e16 only value equality and the absence of a fractional "
@@ -306,11 +307,13 @@ def _padded(rows):
 
 def check_writer(sub, case):
     rows = case["rows"]
-    expected = _padded(rows)
-    if enc_xlsx.text_table(rows) != expected:
-        # trailing empty rows or columns: xlsx cannot hold them, the statement does not apply
-        sub.case(None, False, ["writer:unrepresentable-skipped"], evals=0)
-        return
+    # A trailing row WITHOUT any cell writes nothing and cannot come back; every cell that is written - also an
+    # empty string in the last column or row - is part of the table and must read back ("reads back identically").
+    kept = list(rows)
+    while kept and len(kept[-1]) == 0:
+        kept.pop()
+    expected = _padded(kept)
+    trailing_empties = enc_xlsx.text_table(rows) != expected
     special = any(ch in cell for row in rows for cell in row for ch in "=<>&\"'\t\n ") or any(
         ord(ch) > 127 for row in rows for cell in row for ch in cell)
     ragged = len(set(len(row) for row in rows)) > 1
@@ -318,6 +321,7 @@ def check_writer(sub, case):
     classes += ["writer:ragged"] if ragged else []
     classes += ["writer:special-characters"] if special else []
     classes += ["writer:with-empty-cells"] if any(cell == "" for row in rows for cell in row) else []
+    classes += ["writer:trailing-empty-cells"] if trailing_empties else []
     folder = tempfile.mkdtemp(prefix="c16-")
     try:
         path = os.path.join(folder, "written.xlsx")
@@ -596,8 +600,9 @@ def workbook_cases(draw):
 def writer_cases(draw):
     cell = st.one_of(st.sampled_from(SPECIAL_STRINGS), st.text(alphabet=ALPHABET, max_size=8), st.just(""))
     rows = draw(st.lists(st.lists(cell, max_size=6), max_size=6))
-    if rows:
-        # keep a non-empty cell in the last row and in the last column of the widest row (construct, do not filter)
+    if rows and draw(st.integers(0, 2)) > 0:
+        # mostly: a non-empty cell in the last row and in the last column of the widest row; otherwise trailing
+        # empty cells stay (written explicitly, they must read back)
         filler = draw(st.sampled_from(["x", "=1", "1.0", " ", "ä", "\n"]))
         if not any(rows[-1]):
             rows[-1] = rows[-1][:-1] + [filler] if rows[-1] else [filler]
